@@ -108,7 +108,8 @@ def _make(conv, shape, holes, skew, mesh_opts=None):
             node_x[j, i] = numpy.nan
             node_y[j, i] = numpy.nan
         ds = builders.shoc_standard(ny, nx, node_x=node_x, node_y=node_y,
-                                    face_x=numpy.zeros((ny, nx)), face_y=numpy.zeros((ny, nx)))
+                                    face_x=numpy.zeros((ny, nx)), face_y=numpy.zeros((ny, nx)),
+                                    x_transposed=(mesh_opts or {}).get('x_transposed', ()))
         return ds, ShocStandard(ds)
     raise ValueError(conv)
 
@@ -174,7 +175,8 @@ def body(ctx, conv, shape, holes, skew, via, mesh_opts=None, history=False, boun
             tree.queries.clear()
 
     try:
-        _lookups(ctx, cv, point, via, inside, polygons, N, tree if ctx.symbolic else None)
+        width = None if conv == 'ugrid' else shape[1]
+        _lookups(ctx, cv, point, via, inside, polygons, N, tree if ctx.symbolic else None, width)
     finally:
         pass
     ctx.check(unchanged(ds, snap), 'looking up a point leaves the dataset as it was')
@@ -184,7 +186,7 @@ def body(ctx, conv, shape, holes, skew, via, mesh_opts=None, history=False, boun
                   'a convention bound later to the same dataset has the same polygons')
 
 
-def _lookups(ctx, cv, point, via, inside, polygons, N, tree):
+def _lookups(ctx, cv, point, via, inside, polygons, N, tree, width=None):
     if via == 'select_point':
         try:
             picked = cv.select_point(point)
@@ -209,7 +211,30 @@ def _lookups(ctx, cv, point, via, inside, polygons, N, tree):
               'no intersecting cell has a lower linear index')
     ctx.check(item.polygon is polygons[n], 'polygon field is the polygon at that linear index')
     ctx.check(tuple(item.index) == tuple(cv.wind_index(n)), 'native index and linear index describe the same cell')
+    # (reference: cells are numbered row by row - (j, i) = (n // width, n % width) - and mesh faces one by one)
+    ref = (n,) if width is None else (n // width, n % width)
+    ctx.check(tuple(int(v) for v in tuple(item.index)[-len(ref):]) == ref, 'the native index is the row-major native index of that cell')
     ctx.check(cv.ravel_index(item.index) == n, 'ravel_index(index) == linear_index')
+
+
+def body_big_mesh(ctx):
+    """A mesh with more node numbers than a 16-bit integer holds, whose connectivity was stored as (unsigned) shorts
+    and decoded to floats (encoding dtype int16): lookups near the end of the mesh find the face that contains them."""
+    from emsarray.conventions.ugrid import UGrid
+    n = 182 + int(ctx.int('extra', 0, 1))
+    nodes = [(100.0 + 0.01 * i, -30.0 + 0.01 * j) for j in range(n + 1) for i in range(n + 1)]
+    faces = [[j * (n + 1) + i, j * (n + 1) + i + 1, (j + 1) * (n + 1) + i + 1, (j + 1) * (n + 1) + i] for j in range(n) for i in range(n)]
+    ds = builders.ugrid((nodes, faces), fill='nan', dtype='int16', fill_value=-1)
+    cv = UGrid(ds)
+    polygons = cv.polygons
+    N = len(faces)
+    ctx.check(len(polygons) == N, 'one slot per cell')
+    for f in (0, n - 1, N // 2, N - n, N - 2, N - 1, N - n // 2):
+        ring = [nodes[v] for v in faces[f]]
+        cx, cy = sum(p[0] for p in ring) / 4, sum(p[1] for p in ring) / 4
+        ctx.check(polygons[f] is not None and polygons[f].equals(shapely.Polygon(ring)), 'the cells are the ones the dataset describes (independent reference geometry)')
+        item = cv.get_index_for_point(shapely.Point(cx, cy))
+        ctx.check(item is not None and int(item.linear_index) == f, 'the returned cell contains or touches the point (no nearest-cell fallback)')
 
 
 def PATCHES():
@@ -217,6 +242,7 @@ def PATCHES():
 
 
 def cases(tier):
+    yield Case('ugrid:big:int16-encoding', body_big_mesh, dict(), max_paths=4)
     q = tier == 'quick'
     cfgs = [('cf1d', (2, 3), (), False), ('cf2d', (2, 2), (), True), ('cf2d', (2, 3), ((0, 1),), False),
             ('shoc_simple', (2, 2), ((1, 1),), True), ('shoc_standard', (2, 2), (), True),
@@ -241,7 +267,9 @@ def cases(tier):
     # variables named by the caller
     for conv, shape, holes, mo in (('cf2d', (3, 4), ((1, 1),), dict(derived=True)), ('shoc_simple', (3, 3), ((0, 1), (2, 1)), dict(derived=True)),
                                    ('cf1d', (2, 3), (), dict(explicit=True)), ('cf1d', (3, 2), (), dict(int_coords=True)),
-                                   ('cf2d', (2, 3), (), dict(misdim=True)), ('shoc_simple', (3, 2), (), dict(misdim=True))):
+                                   ('cf2d', (2, 3), (), dict(misdim=True)), ('shoc_simple', (3, 2), (), dict(misdim=True)),
+                                   # SHOC standard with the longitude of the face grid stored (i, j) next to a latitude stored (j, i)
+                                   ('shoc_standard', (2, 3), (), dict(x_transposed=('face',))), ('shoc_standard', (3, 2), ((0, 0),), dict(x_transposed=('face', 'left')))):
         yield Case(f'{conv}:{shape[0]}x{shape[1]}:holes{len(holes)}:{"+".join(mo)}:get_index_for_point', body,
                    dict(conv=conv, shape=shape, holes=holes, skew=True, via='get_index_for_point', mesh_opts=mo),
                    max_paths=60000, split=32, patches=PATCHES)
